@@ -35,7 +35,8 @@ from haiway import (  # noqa: E402
 ID = "C18"
 TECHNIQUE = "exhaustive grid enumeration (signature x call form x receiver x outcome x executor x caller context) with gated real worker threads; every order of worker release vs loop heartbeat (DFS, prefix replay)"
 RULE = (
-    "6 signatures x every admissible call form x {function, bound method} x {value, exception} x "
+    "6 signatures x every admissible call form x {function, bound method} x {value, Exception, "
+    "BaseException} x "
     "{default, explicit executor} x caller context {none, scope A#1, scope + updated A#2} for "
     "asynchronous (all orders of 'release worker' vs two heartbeat steps); wrap_async (sync / "
     "async input) and traced (sync / async, inside / outside a scope) over the same call forms; "
@@ -105,6 +106,10 @@ class Boom(Exception):
     pass
 
 
+class BoomBase(BaseException):
+    pass
+
+
 RESULT = object()
 
 SIGS: dict[str, tuple[str, list]] = {
@@ -121,12 +126,14 @@ def programs(tier: str):
     for sig, (_, forms) in SIGS.items():
         for fi in range(len(forms)):
             for kind in ("function", "method"):
-                for outcome in ("value", "raise"):
+                for outcome in ("value", "raise", "raise_base"):
                     for executor in ("default", "explicit"):
+                        if outcome == "raise_base" and executor == "explicit":
+                            continue
                         for cctx in ("none", "scope", "scope+updated"):
                             yield {"family": "asynchronous", "sig": sig, "form": fi, "kind": kind, "outcome": outcome, "executor": executor, "ctx": cctx}
             for inp in ("sync", "async"):
-                for outcome in ("value", "raise"):
+                for outcome in ("value", "raise", "raise_base"):
                     yield {"family": "wrap_async", "sig": sig, "form": fi, "input": inp, "outcome": outcome}
                     ctxs = ("none", "scope") if tier == "quick" else ("none", "scope", "scope+updated", "nested")
                     for cctx in ctxs:
@@ -197,7 +204,7 @@ def execute(program, ch: Chooser) -> Result:  # noqa: C901, PLR0912, PLR0915
     for s in (a1, a2, a9):
         tags[id(s)] = s.tag
     seen: dict = {"calls": 0}
-    boom = Boom("own")
+    boom = Boom("own") if outcome != "raise_base" else BoomBase("own-base")
     leak_cms: list = []
 
     def body(received: dict):
@@ -213,7 +220,7 @@ def execute(program, ch: Chooser) -> Result:  # noqa: C901, PLR0912, PLR0915
         cm = ctx.updated(a9)
         cm.__enter__()
         leak_cms.append(cm)
-        if outcome == "raise":
+        if outcome != "value":
             raise boom
         return RESULT
 
@@ -262,7 +269,7 @@ def execute(program, ch: Chooser) -> Result:  # noqa: C901, PLR0912, PLR0915
                 if inspect.isawaitable(r):
                     r = await r
                 got["out"] = ("value", r)
-            except Boom as exc:
+            except (Boom, BoomBase) as exc:
                 got["out"] = ("raised", exc)
             except BaseException as exc:  # noqa: BLE001
                 got["out"] = ("other", f"{type(exc).__name__}: {exc}"[:200])
@@ -315,7 +322,7 @@ def execute(program, ch: Chooser) -> Result:  # noqa: C901, PLR0912, PLR0915
                 viols.append(viol("transparent", f"foreign-exception/{witness}", "the function's own outcome", out[1]))
             elif outcome == "value" and not (out[0] == "value" and out[1] is RESULT):
                 viols.append(viol("transparent", f"result/{witness}", "the same result object", out[0]))
-            elif outcome == "raise" and not (out[0] == "raised" and out[1] is boom):
+            elif outcome != "value" and not (out[0] == "raised" and out[1] is boom):
                 viols.append(viol("transparent", f"exception/{witness}", "the same exception object", out[0]))
             if seen["calls"] != 1:
                 viols.append(viol("transparent", f"calls/{witness}", 1, seen["calls"]))
@@ -348,12 +355,12 @@ def execute(program, ch: Chooser) -> Result:  # noqa: C901, PLR0912, PLR0915
                     want_args = ArgumentsTrace.of(*args, **kwargs)
                     if len(at) != 1 or not (at[0] == want_args):
                         viols.append(viol("traced-arguments", witness, str(want_args), [str(x) for x in at]))
-                    want_res = boom if outcome == "raise" else RESULT
+                    want_res = boom if outcome != "value" else RESULT
                     if len(rt) != 1 or rt[0].result is not want_res:
                         viols.append(viol("traced-result", witness, "the produced value / exception", [str(x) for x in rt]))
         for cm in leak_cms:
             pass  # never exited on purpose
-        nontrivial = bool(kwargs) or len(args) > 1 or outcome == "raise" or program.get("ctx", "none") != "none"
+        nontrivial = bool(kwargs) or len(args) > 1 or outcome != "value" or program.get("ctx", "none") != "none"
         outs = f"{fam}/{out[0] if out else 'none'}/{program.get('ctx', '-')}"
         obs = {"trace": w.trace, "out": out[0] if out else None, "state_in_body": seen.get("state"), "hb": hb.get("steps")}
         return Result(outs, nontrivial, viols[:5], obs, steps=2)
